@@ -53,10 +53,10 @@ ExpiryFew == { Exp(100, 3, 2016, 40, oe, ie) :
                <<oe, ie>> \in { <<200, 240>>, <<103, 143>>, <<2117, 2157>>, <<200, 239>>, <<200, 2217>>, <<103, 102>> } }
 
 \* one amount case per amount-side outcome (ok, fee-1, below min, above max, above bandwidth, several at once)
-NeedFew == Need(500, 13, 2500, -7, -500000)
-AmountFew == { Amt(i, o, 13, 2500, -7, -500000, mn, mx) :
+NeedFew == Need(500, 13, 2500, -7, -5000)
+AmountFew == { Amt(i, o, 13, 2500, -7, -5000, mn, mx) :
                <<i, o, mn, mx>> \in { <<NeedFew, 500, 1, 0>>, <<NeedFew - 1, 500, 1, BW>>, <<NeedFew, 500, 501, BW>>,
-                                      <<NeedFew, 500, 1, 499>>, <<Need(BW + 1, 13, 2500, -7, -500000), BW + 1, 1, 0>>,
+                                      <<NeedFew, 500, 1, 499>>, <<Need(BW + 1, 13, 2500, -7, -5000), BW + 1, 1, 0>>,
                                       <<0, BW + 1, BW + 2, BW>> } }
 
 FeeOuts    == {1, 7, 500, BW - 1, BW, BW + 1}
@@ -93,6 +93,15 @@ LatticePick(P(_)) ==
 Fits(x) == W32 # 0 => x.height < W32 /\ x.inExp < W32 /\ x.outExp < W32
 PickFwd(x)     == Fits(x) /\ Pick(x, "fwd")
 PickTransit(x) == Fits(x) /\ Pick(x, "transit")
+\* vacuity guards for the two "few" sides
+AmountRules == {"FeeInsufficient", "BelowMin", "AboveMax", "Bandwidth"}
+ASSUME \E a \in AmountFew : \A e \in ExpiryFew : Violated(Mk(a, e)) \cap AmountRules = {}
+ASSUME \E e \in ExpiryFew : \A a \in AmountFew : Violated(Mk(a, e)) \subseteq AmountRules
+ASSUME \E a \in AmountFew, e \in ExpiryFew : Accept(Mk(a, e))
+ASSUME \A r \in AmountRules : \E a \in AmountFew : \A e \in ExpiryFew : Violated(Mk(a, e)) \cap AmountRules = {r}
+ASSUME \A r \in {"ExpiryTooSoon", "ExpiryTooFar", "IncorrectCltvExpiry", "CltvDeltaTooFar"} :
+         \E e \in ExpiryFew : \A a \in AmountFew : Violated(Mk(a, e)) \ AmountRules = {r}
+
 MCNext == (pc = "pick" /\ (LatticePick(PickFwd) \/ LatticePick(PickTransit))) \/ Decide
 MCSpec == Init /\ [][MCNext]_vars
 =============================================================================
